@@ -537,6 +537,25 @@ Definition wft (t : list ch) : Prop := forall c, In c t -> wfc c.
 Definition ascii_bytes (s : list N) : bool := forallb (fun b => b <? 128) s.
 Definition onbytes (f : list ch -> list ch) (s : list N) : list N := encode (f (decode s)).
 
+(* L007: what the rule names.  The scanner is inside a word after a code character that starts a word, or continues one *)
+Section SpecWords.
+  Variables is_letter is_digit : N -> bool.
+  Fixpoint inword_after (inw : bool) (l : list cc) : bool :=
+    match l with
+    | [] => inw
+    | p :: t => inword_after (wordc is_letter is_digit inw p) t
+    end.
+  (* w is a code word of the classified line l that begins at character index |pre|: it starts with a letter or '_' of code
+     where no word is running, continues with letters, digits and '_' of code, and is not continued by the next character *)
+  Definition code_word (l pre w post : list cc) : Prop :=
+    l = pre ++ w ++ post /\ inword_after false pre = false /\
+    match w with
+    | p :: v => wordc is_letter is_digit false p = true /\ forallb (wordc is_letter is_digit true) v = true
+    | [] => False
+    end /\
+    match post with [] => True | d :: _ => wordc is_letter is_digit true d = false end.
+End SpecWords.
+
 Section Spec.
   Variable is_space : N -> bool.
   Variable upper_ascii : N -> option N.
